@@ -204,6 +204,20 @@ def sgn0_checks(rec, ocls, F, rng, tag, n):
             rec.case("sgn0:after-neg", None, nontrivial=False)
             rec.check("B-sgn0", st2 == "ok" and again == got and st3 == "ok" and int(gneg) == F.sgn0_rfc(F.neg(v)), tag,
                       "sgn0 cache incoherent or sgn0(-x) wrong", case=case, facts={"kind": "sgn0-neg", "deg": k})
+            # elements DERIVED from x after x's sign was read are new elements with their own sign (a memo must not travel)
+            w = els[(els.index(v) + 3) % len(els)]
+            y = G.make(ocls, w)
+            one = G.make(ocls, (1,) + (0,) * (k - 1))
+            derived = [("x+y", lambda: x + y, F.add(v, w)), ("x-y", lambda: x - y, F.sub(v, w)), ("x*y", lambda: x * y, F.mul(v, w)),
+                       ("x*3", lambda: x * 3, F.smul(v, 3)), ("x+1", lambda: x + one, F.add(v, F.one)), ("y-x", lambda: y - x, F.sub(w, v))]
+            if k > 1:
+                derived.append(("x*(p-1)", lambda: x * (p - 1), F.smul(v, p - 1)))
+            for name, mk, ev in derived:
+                st4, d = call(mk)
+                st5, gs = call(lambda: d.sgn0) if st4 == "ok" else ("exc", d)
+                rec.case("sgn0:derived-after-read", None, nontrivial=False)
+                rec.check("B-sgn0", st5 == "ok" and int(gs) == F.sgn0_rfc(ev), tag, "sgn0(%s) wrong after sgn0(x) had been read" % name,
+                          case=dict(case, derived=name, y=list(w)), facts={"kind": "sgn0-derived", "deg": k, "op": name}, expected=F.sgn0_rfc(ev), observed=gs if st5 == "ok" else repr(gs))
 
 
 def run(rec):
